@@ -41,6 +41,10 @@ fn main() {
                 "C11" => props::c11::run(tier),
                 "C12" => props::c12::run(tier),
                 "C13" => props::c13::run(tier),
+                "C17" => props::c17::run(tier),
+                "C18" => props::c18::run(tier),
+                "C19" => props::c19::run(tier),
+                "C20" => props::c20::run(tier),
                 _ => usage(),
             };
             std::process::exit(code);
